@@ -90,6 +90,11 @@ CHECKS = {
         "units": [unit("c10-revocation", "revocation", ["zz_verif_c10_test.go"], "^TestVerifC10", shards={"quick": 16, "thorough": 16})],
         "assumptions": ["ECDSA P-256 and SHA-256 from the standard library are trusted by implementation and validator alike"],
     },
+    "C11": {
+        "level": "model_checking",
+        "units": [unit("c11-root", "root", ["zz_verif_c11_test.go"], "^TestVerifC11", shards={"quick": 16, "thorough": 16})],
+        "assumptions": ["verdicts that depend on Go's map iteration order are sampled 16 times per proof (residual miss probability of a defective tree < 2^-60, see DESIGN 4 C11)"],
+    },
     "_FIX": {
         "level": "other",
         "units": [unit("genfix", "root", [], "^TestVerifGenFixtures$", env={"VERIF_GENFIX": "1"}, timeout=1800)],
